@@ -345,9 +345,13 @@ end Cubic
 /-- `atan` is not part of `Transc`; supplied here (Float32/Float: libm `atanf`/`atan`). -/
 class Atan (α : Type) where
   atan : α → α
+  /-- `atan(y / x)` as IEEE arithmetic evaluates it: the quotient lives in the extended reals
+  (`y / ±0 = ±∞` for `y ≠ 0`, and `atan(±∞) = ±π/2`).  On floats this is literally
+  `atan (y / x)`; a field instance has to spell the `x = 0` case out, because `y / 0 = 0` there. -/
+  atanQuot : α → α → α
 
-instance : Atan Float32 := ⟨Float32.atan⟩
-instance : Atan Float := ⟨Float.atan⟩
+instance : Atan Float32 := ⟨Float32.atan, fun y x => Float32.atan (y / x)⟩
+instance : Atan Float := ⟨Float.atan, fun y x => Float.atan (y / x)⟩
 
 namespace Arc
 variable [Transc α]
@@ -392,8 +396,9 @@ variable [Atan α]
 
 /-- `a1 = -atan(ry * tan(x_rotation) / rx)` -/
 def xExtAngle (arc : Arc α) : α := -(Atan.atan (arc.radii.y * Transc.tan arc.xrot / arc.radii.x))
-/-- `a1 = atan(ry / (tan(x_rotation) * rx))`  (for `tan = 0` this is IEEE `atan(±inf) = ±π/2`) -/
-def yExtAngle (arc : Arc α) : α := Atan.atan (arc.radii.y / (Transc.tan arc.xrot * arc.radii.x))
+/-- `a1 = atan(ry / (tan(x_rotation) * rx))`; for an unrotated ellipse `tan = 0` and the code relies
+on IEEE `ry / 0 = ±inf`, `atan(±inf) = ±π/2`: that is what `Atan.atanQuot` stands for -/
+def yExtAngle (arc : Arc α) : α := Atan.atanQuot arc.radii.y (Transc.tan arc.xrot * arc.radii.x)
 
 /-- `for_each_local_x_extremum_t` -/
 def localXExtremaT (arc : Arc α) : List α :=
@@ -488,5 +493,57 @@ def boundingBox (big : α) (evs : List (PEv α)) : Box α :=
   finish big (evs.foldl tightStep (start big))
 
 end Aabb
+
+/-! ## `lyon_algorithms::fit` -/
+
+/-- `Transform2D::then` -/
+def Xf.andThen (s m : Xf α) : Xf α :=
+  ⟨s.m11 * m.m11 + s.m12 * m.m21, s.m11 * m.m12 + s.m12 * m.m22,
+   s.m21 * m.m11 + s.m22 * m.m21, s.m21 * m.m12 + s.m22 * m.m22,
+   s.m31 * m.m11 + s.m32 * m.m21 + m.m31, s.m31 * m.m12 + s.m32 * m.m22 + m.m32⟩
+/-- `Transform2D::translation(x, y)` -/
+def Xf.translation (x y : α) : Xf α := ⟨one, zero, zero, one, x, y⟩
+/-- `Transform2D::scale(x, y)` -/
+def Xf.scale (x y : α) : Xf α := ⟨x, zero, zero, y, zero, zero⟩
+
+inductive FitStyle where
+  | stretch | min | max | horizontal | vertical
+deriving DecidableEq
+
+namespace Fit
+
+def width (b : Box α) : α := b.max.x - b.min.x
+def height (b : Box α) : α := b.max.y - b.min.y
+
+/-- the `match style { … }` of `fit_box` on `scale = (dst.w / src.w, dst.h / src.h)` -/
+def pickScale (sx sy : α) : FitStyle → P α
+  | .stretch => ⟨sx, sy⟩
+  | .min => ⟨Scalar.min sx sy, Scalar.min sx sy⟩
+  | .max => ⟨Scalar.max sx sy, Scalar.max sx sy⟩
+  | .horizontal => ⟨sx, sx⟩
+  | .vertical => ⟨sy, sy⟩
+
+/-- `fit_box(src_rect, dst_rect, style)` -/
+def fitBox (src dst : Box α) (style : FitStyle) : Xf α :=
+  let scale := pickScale (width dst / width src) (height dst / height src) style
+  let srcCenter := src.min.lerp src.max half
+  let dstCenter := dst.min.lerp dst.max half
+  ((Xf.translation (-srcCenter.x) (-srcCenter.y)).andThen (Xf.scale scale.x scale.y)).andThen
+    (Xf.translation dstCenter.x dstCenter.y)
+
+/-- `PathEvent::transformed` (`End` carries no point the folds read) -/
+def mapEv (m : Xf α) : PEv α → PEv α
+  | .begin p => .begin (m.apply p)
+  | .line f p => .line (m.apply f) (m.apply p)
+  | .quad f c p => .quad (m.apply f) (m.apply c) (m.apply p)
+  | .cubic f c1 c2 p => .cubic (m.apply f) (m.apply c1) (m.apply c2) (m.apply p)
+  | .end_ => .end_
+
+/-- `fit_path(path, output_rect, style)` as an event list: the path's `aabb::bounding_box` is
+fitted into `dst` and every event is transformed -/
+def fitPath [Transc α] (big : α) (evs : List (PEv α)) (dst : Box α) (style : FitStyle) : List (PEv α) :=
+  evs.map (mapEv (fitBox (Aabb.boundingBox big evs) dst style))
+
+end Fit
 
 end Lyon
